@@ -2,7 +2,8 @@
 Engine D: the table of supported characters is dumped from the code built from REPO into Gallina data every run;
 vm_compute theorems on the table (name = prefix + code point of the UTF-8 decoding, distinct, prefix-free, ASCII names with a
 non-repeated first symbol, round trip of every character and of adjacent characters through the byte-level model = folds of
-C32's replace_all); general token-level theorems (one character / any string round trip, ASCII output).
+C32's replace_all); general theorems: byte-level round trip of ANY string without the mangling prefix through all the passes, for any
+table satisfying decidable side conditions (C33Roundtrip.v), instantiated on the dumped table; ASCII output; one character / any string.
 Tie: real getMangledString and the real tfel-unicode-filt (both compiled from REPO) on the whole table and on random mixed
 strings, against the expectation known by construction and against the Gallina model (vm_compute)."""
 import os, re
@@ -32,8 +33,8 @@ def main(c):
         return
     table = [(unhx(t[1]), unhx(t[2])) for t in (l.split() for l in out.splitlines()) if t and t[0] == "E"]
     c.trusted("props/C33/driver.cxx (dump of getSupportedUnicodeCharactersDescriptions(), calls of getMangledString) and the Python printer of C33_gen.v",
-              "token-level abstraction of the general theorems: a supported character is one symbol (justified for valid UTF-8 by self-synchronisation, not proved); "
-              "the byte-level sequence of replacements is covered by the table theorems and by execution")
+              "the byte-level model of replace_all is the one of C32 (tied to StringAlgorithms.cxx there); the replace_all lambda of getMangledString is tied "
+              "to it by execution (whole table, random strings, model vs code on a sample)")
     nfail = 0
     # ---------------- independent statement on the table
     seen_u, seen_m = {}, {}
@@ -56,30 +57,48 @@ def main(c):
     rng = c.rng
     others = ["é".encode(), "€".encode(), "日".encode(), "𝐀".encode(), b"\xff", b"\xce", b"\x91"]
     chunks = [b"", b"a", b"x_1", b" + ", b"t", b"tfel", b"tfel_unicode_mangling", b"_", b"0391", b"sig(", b")", b"\t", b"T", b"d/dt"]
+    # independent statement of the expected value, from the FULL dumped table: one left-to-right scan of the bytes; where a
+    # supported character begins (it is unique: the characters are prefix-free) its name is written, otherwise the byte is
+    # copied.  (That the successive replace_all passes of the code compute exactly this, for every byte string, is the
+    # content of the general theorem C33_roundtrip_any_string / its lemma core_mangle.)
+    by_lead = {}
+    for u, m in table:
+        by_lead.setdefault(u[:1], []).append((u, m))
+
+    def expected(s):
+        w, i = bytearray(), 0
+        while i < len(s):
+            for u, m in by_lead.get(s[i:i + 1], ()):
+                if s.startswith(u, i):
+                    w += m
+                    i += len(u)
+                    break
+            else:
+                w.append(s[i])
+                i += 1
+        return bytes(w)
+
     cases = []  # (original, expected mangled, reversible?)
     for u, m in table:
         cases.append((u, m, True))
         cases.append((b"a" + u + u + b"b", b"a" + m + m + b"b", True))
-    for _ in range(c.pick(1500, 20000)):
-        s, w, rev = b"", b"", True
-        for _ in range(rng.randint(1, 12)):
-            r = rng.random()
-            if r < 0.45:
-                u, m = rng.choice(table)
-                s, w = s + u, w + m
-            elif r < 0.9:
-                x = rng.choice(chunks) if rng.random() < 0.6 else bytes(rng.choice(b"abcxyzt_019 +-*/()") for _ in range(rng.randint(1, 6)))
-                s, w = s + x, w + x
-            else:
-                x = rng.choice(others)
-                s, w = s + x, w + x
+
+    def piece():
+        r = rng.random()
+        if r < 0.45:
+            return rng.choice(table)[0]
+        if r < 0.9:
+            return rng.choice(chunks) if rng.random() < 0.6 else bytes(rng.choice(b"abcxyzt_019 +-*/()") for _ in range(rng.randint(1, 6)))
+        # unsupported characters and raw bytes, fragments of supported characters included (they may combine into one)
+        return rng.choice(others)
+
+    for k in range(c.pick(1500, 20000)):
+        # every fourth string is long (up to 400 pieces): many occurrences of many characters, all the passes matter
+        npieces = rng.randint(1, 12) if k % 4 else rng.randint(40, 400)
+        s = b"".join(piece() for _ in range(npieces))
         if b"\n" in s or PREFIX.encode() in s:
             continue
-        # raw bytes that are fragments of supported characters may combine into one: only well-formed pieces are predicted
-        frag = any(s.count(f) for f in (b"\xce", b"\x91")) and not s.decode("utf-8", "ignore").encode() == s
-        if frag:
-            continue
-        cases.append((s, w, True))
+        cases.append((s, expected(s), True))
     qf = os.path.join(c.work, "strings.txt")
     open(qf, "w").write("\n".join(hx(s) for s, _, _ in cases) + "\n")
     rc, out, err = c.run([exe, "mangle", qf])
@@ -115,8 +134,9 @@ def main(c):
     c.coverage["exhaustive"] = True
     c.coverage["traces_validated_against_impl"] = len(cases)
     c.coverage["rule"] = ("exhaustive: the %d table entries (each alone and doubled in ASCII context) through getMangledString and tfel-unicode-filt; %d random strings "
-                          "of 1..12 pieces (45%% supported characters, 45%% ASCII chunks incl. proper prefixes of the mangling prefix, 10%% unsupported non-ASCII); "
-                          "non-trivial = contains a supported character" % (len(table), len(cases) - 2 * len(table)))
+                          "of 1..12 pieces, every fourth of 40..400 pieces (45%% supported characters, 45%% ASCII chunks incl. proper prefixes of the mangling prefix, 10%% "
+                          "unsupported non-ASCII characters and raw bytes 0xff 0xce 0x91, which may combine into a supported character); expected value = one left-to-right "
+                          "scan with the full dumped table; non-trivial = contains a supported character" % (len(table), len(cases) - 2 * len(table)))
     # ---------------- Gallina: regenerated table, model vs real on a sample, theorems
     gen = os.path.join(c.work, "coq", "C33_gen.v")
     os.makedirs(os.path.dirname(gen), exist_ok=True)
@@ -131,7 +151,9 @@ def main(c):
         txt = open(os.path.join(VERIF, "props", "C32", "coq", n)).read().replace("From C32 Require", "From C33 Require")
         open(os.path.join(gdir, n), "w").write(txt)
         deps.append(os.path.join(gdir, n))
-    sample = cases[:2 * len(table):17] + cases[2 * len(table):][:c.pick(60, 400)]
+    rnd = cases[2 * len(table):]
+    # the Gallina model is evaluated (vm_compute, 136 passes each way) on short strings and on two long ones
+    sample = cases[:2 * len(table):17] + [x for x in rnd if len(x[0]) <= 120][:c.pick(60, 400)] + [x for x in rnd if len(x[0]) > 120][:2]
     idx = [cases.index(x) for x in sample]
     ev = ("From Coq Require Import List Ascii Bool.\nFrom C33 Require Import C32Model C33Model C33_gen.\nImport ListNotations.\n"
           "Definition cases : list (list ascii * list ascii) := [\n  " +
@@ -148,7 +170,7 @@ def main(c):
         if fl != "true" and nfail == 0:
             c.report("model:" + cases[i][0].hex(), "the Gallina model (folds of replace_all over the table) disagrees with getMangledString/tfel-unicode-filt on %r"
                      % cases[i][0].decode("utf-8", "replace"), {"original_hex": cases[i][0].hex(), "real_mangled_hex": real[i].hex()}, False)
-    res = c.coq(deps + ["C33Model.v", "C33General.v", gen, "C33TableOk.v", "C33Proofs.v", "Properties_C33.v"], timeout=900)
+    res = c.coq(deps + ["C33Model.v", "C33General.v", "C33Roundtrip.v", gen, "C33TableOk.v", "C33Proofs.v", "Properties_C33.v"], timeout=900)
     if not res.ok:
         if nfail:
             c.notes.append("proof obligations failed: %s; concrete failing inputs reported above" % [f[2] or f[0] for f in res.failed])
